@@ -10,12 +10,13 @@ open JP JP.Query JP.Pointer JP.Lemmas
 
 /-- Every match of a standard (filter-free) query carries a location `loc` of the document: its parts are
     that location, its path string is the RFC 9535 section 2.7 normalized path of `loc`, and its value is
-    the document's value at `loc`. -/
-theorem match_located (rx : Rx) (segs : List Seg) (doc extra : J)
+    the document's value at `loc`. The document must have unique member names (`doc.wf`, what
+    `json.loads` produces): duplicate member names make a location ambiguous. -/
+theorem match_located (rx : Rx) (segs : List Seg) (doc extra : J) (hwf : doc.wf = true)
     (hp : plainSegs segs = true) (hw : Rfc.wellFormedSegs segs = true) :
     ∀ n ∈ finditer rx ⟨segs, false⟩ doc extra,
       ∃ loc, n.parts = locParts loc ∧ n.path = Rfc.normalizedPath loc ∧ locValue doc loc = some n.val :=
-  Lemmas.match_located rx segs doc extra hp hw
+  Lemmas.match_located rx segs doc extra hwf hp hw
 
 /-- Two normalized paths are equal if and only if they denote the same location. -/
 theorem equal_paths_iff_same_node (a b : List Rfc.LStep) :
